@@ -15,6 +15,8 @@
 //	path <tree> <draws|-> <hexpath>[,<hexpath>...]    real mp.GetMapValue on a variable tree (grammar: internal/a15/tree.go),
 //	                                                  the listed paths one after the other on ONE real NextIterator
 //	                                                  (iter.Rand answers the listed draws); one result per path
+//	tmpl <t|h> <trees> <calls>                        real TextTemplater / HTMLTemplater: a history of Apply calls on ONE
+//	                                                  templater (grammar: tmpl.go); one result per call
 package main
 
 import (
@@ -647,6 +649,8 @@ func runCase(c string) string {
 	switch f[0] {
 	case "path":
 		return runPath(f)
+	case "tmpl":
+		return runTmpl(f)
 	case "parse":
 		name, cnt, sl, err := sconfig.ParseShootName(string(vh.UnHex(f[1])))
 		if err != nil {
